@@ -83,6 +83,10 @@ func C12(ctx *core.Ctx) {
 	ctx.Rule("C12.R3", "every transmission is dominated by the pass edge of its transport's guard; the reject edge returns REQUEST_TOO_LARGE", 5)
 	ctx.Rule("C12.R4", "response-side conversion: SendReply → trapError → APPLICATION_EXCEPTION_RESPONSE_TOO_LARGE → client RESPONSE_TOO_LARGE; HTTP 413 both ways; IsErrTooLarge knows both kinds", 9)
 	c12EncoderErrors(ctx, r)
+	ctx.Rule("C12.R8", "argument roles on the reply path: a function that has a `method` parameter passes it on as the callee's `method` (the envelope name the client checks before it looks at the exception)", 4)
+	argumentRoles(ctx, r, "C12.R8", map[string]bool{"method": true}, "the reply envelope carries something else than the method name, so the client rejects it as WRONG_METHOD_NAME before it can see RESPONSE_TOO_LARGE")
+	ctx.Rule("C12.R9", "server-side limit wiring: a bounded output buffer whose bytes are published on NATS is bounded by the NATS payload constant the client-side guard enforces", 1)
+	natsReplyBufferLimit(ctx, r, "C12.R9")
 	ctx.Rule("C12.R7", "a rejected oversize request leaves nothing behind: the registration made before the size check is removed on every exit, so the same client and context keep working", 2)
 	for _, req := range r.Impl("FTransport", "Request") {
 		c01Request(ctx, r, req, "C12.R7", "")
@@ -386,6 +390,44 @@ func C12(ctx *core.Ctx) {
 				eP := pr.EnvAt(gd.re.If)
 				pos := eP.Prove(lin.GT(eP.Term(lv), lin.Const(0), ""))
 				ctx.Check(pos, "C12.R2", construct+" › only when limit > 0", r.IPos(gd.re.If), "guard evaluated under limit > 0", "a zero limit (unbounded) rejects every non-empty message")
+			}
+			// the limit the transport advertises (the client sizes its encoder with it) is the bound this guard enforces
+			if recv := fn.Signature.Recv(); recv != nil && !gd.re.Is413 {
+				for _, g2 := range r.Fns {
+					if g2.Signature.Recv() == nil || !types.Identical(g2.Signature.Recv().Type(), recv.Type()) {
+						continue
+					}
+					if g2.Name() != "GetRequestSizeLimit" && g2.Name() != "GetPublishSizeLimit" {
+						continue
+					}
+					unconv := func(v ssa.Value) ssa.Value {
+						v = ssax.Strip(v)
+						if cv, ok := v.(*ssa.Convert); ok {
+							v = ssax.Strip(cv.X)
+						}
+						return v
+					}
+					same, what := true, ""
+					for _, vs := range ReturnedValues(g2) {
+						a, b := unconv(vs[0]), unconv(Lv)
+						ka, okA := ssax.ConstInt(a)
+						kb, okB := ssax.ConstInt(b)
+						switch {
+						case okA && okB:
+							if ka != kb {
+								same, what = false, sprintf("getter returns %d, guard enforces %d", ka, kb)
+							}
+						case !okA && !okB:
+							if fa, fb := fieldNameOfValue(a), fieldNameOfValue(b); fa == "" || fa != fb {
+								same, what = false, "getter returns "+a.Name()+" ("+fa+"), guard compares with "+b.Name()+" ("+fb+")"
+							}
+						default:
+							same, what = false, "one of getter/guard is a constant, the other a field"
+						}
+					}
+					ctx.Check(same, "C12.R5", fname+" › "+g2.Name()+"() returns the bound its guard enforces", fnPos(r, g2), "same constant / same field",
+						"the advertised limit differs from the enforced one ("+what+"): the client's encoder rejects messages the transport would accept (or lets through ones it rejects)")
+				}
 			}
 			// reject kind
 			if !gd.re.Is413 {
